@@ -54,7 +54,7 @@ def cases(tier, seed):
             g["file_id_base"] = [100000, "mixed"][(i // 7) % 2]
         if i % 5 == 2:      # very far from the origin: anything derived from geo_high - geo_low loses digits
             g["origin"] = [3.0e8, -7.0e8, 1.1e9]
-        cs.append({"gen": g, "sel_seed": seed * 61 + i, "poison_covered": i % 4 == 1, "fmt": dict(ref_ratio_extra=rng.choice([0, 0, 1, 3]), trailing_blank=rng.random() < 0.7, close_blank=rng.random() < 0.3, floatfmt=rng.choice(["repr", "17g"]))})
+        cs.append({"gen": g, "sel_seed": seed * 61 + i, "poison_covered": i % 4 == 1, "uniform_boxes": i % 4 == 2, "fmt": dict(ref_ratio_extra=rng.choice([0, 0, 1, 3]), trailing_blank=rng.random() < 0.7, close_blank=rng.random() < 0.3, floatfmt=rng.choice(["repr", "17g"]))})
     # scale: 64**3 coarse boxes (4096 cells of the occupancy map each), one of them refined by an interior patch only
     for k in range(2 if tier == "quick" else 6):
         cs.append({"scale": "coarse64", "gen": dict(seed=seed * 7 + 9190 + k, names=["rho", "volFrac", "q"], payload="positive"),
@@ -107,6 +107,8 @@ def run_case(case, work, rec):
     shapes = {b.shape for lv in m.boxes for b in lv}
     if len(shapes) == 1 and any(v % min(next(iter(shapes))) for lv in m.boxes[1:] for b in lv for v in b.lo):
         rec.count("uniform_boxes_offset_patches")
+    if case.get("uniform_boxes"):
+        rec.count("inputs_with_exactly_uniform_boxes")
     if getattr(m, "poisoned_cells", 0):
         rec.count("covered_cells_nonfinite")       # cells that must count zero times hold NaN / inf
     rec.sample({"plotfile": gen.describe(m), "mixed_box_sizes": mixed, "covered_cells_poisoned": getattr(m, "poisoned_cells", 0)})
@@ -130,7 +132,11 @@ def run_case(case, work, rec):
                     nf0 = len(contracts.FAILS)
                     try:
                         if surface == "api":
-                            got = volume_integral(PlotfileCooker(path, limit_level=limit, ghost=True), field,
+                            # the reader's other option (per-box extrema from the level headers) is the caller's business
+                            mm = {"maxmins": True} if rng.random() < 0.5 else {}
+                            if mm:
+                                rec.count("readers_opened_with_maxmins")
+                            got = volume_integral(PlotfileCooker(path, limit_level=limit, ghost=True, **mm), field,
                                                   use_volfrac=volfrac)
                         elif surface == "api_arg":
                             got = volume_integral(PlotfileCooker(path, ghost=True), field, limit_level=limit,
